@@ -36,7 +36,8 @@ let z_of_n (x : n) : z = match x with N0 -> Z0 | Npos p -> Zpos p
 
 (* A block whose first line is "-100" holds codec cases instead of a script:
    1 id gen -> marshal_bin bytes;  2 b.. -> unmarshal_bin (1 id gen | 0);
-   3 id gen -> marshal_json bytes; 4 b.. -> unmarshal_json (1 id gen | 0);  5 n -> capPow2 *)
+   3 id gen -> marshal_json bytes; 4 b.. -> unmarshal_json (1 id gen | 0);  5 n -> capPow2;
+   6 n ls src.. tgt.. -> dumpload_case (pool scripts: dump of the source loaded into the target) *)
 let codec_case (l : z list) : z list =
   match l with
   | c :: rest ->
@@ -48,6 +49,7 @@ let codec_case (l : z list) : z list =
      | 4, bs -> (match unmarshal_json (List.map n_of_z bs) with
                  | Some (i, g) -> [z_of_int 1; z_of_n i; z_of_n g] | None -> [Z0])
      | 5, [x] -> [z_of_n (capPow2N (n_of_z x))]
+     | 6, args -> dumpload_case args
      | _, _ -> [z_of_int (-1)])
   | [] -> [z_of_int (-1)]
 
